@@ -20,17 +20,17 @@ from . import c01_oracle as O1
 TOL = 1e-11
 
 VEC_ELEMS = {
-    'tri': ['V:ElementTriP1', 'V:ElementTriP2', 'V:ElementTriMini', 'V:ElementTriCCR', 'V:DG:ElementTriP1',
+    'tri': ['V3:ElementTriP2', 'V1:ElementTriP2', 'V4:ElementTriCCR', 'V3:ElementTriMini', 'V:ElementTriP1', 'V:ElementTriP2', 'V:ElementTriMini', 'V:ElementTriCCR', 'V:DG:ElementTriP1',
             'C:ElementTriP2+ElementTriP1', 'C:ElementTriP2+ElementTriP1+ElementTriP0', 'C:ElementTriMini+ElementTriP1',
             'C:ElementTriRT0+ElementTriP0', 'C:V:ElementTriP2+ElementTriP1', 'C:ElementTriP0+ElementTriCR+ElementTriP2',
             'C:ElementTriMorley+ElementTriP1', 'C:ElementTriN1+ElementTriP1'],
-    'quad': ['V:ElementQuad1', 'V:ElementQuad2', 'C:ElementQuad2+ElementQuad1+ElementQuad0', 'C:ElementQuadRT0+ElementQuad0',
+    'quad': ['V3:ElementQuad2', 'V1:ElementQuad2', 'V4:ElementQuad1', 'V:ElementQuad1', 'V:ElementQuad2', 'C:ElementQuad2+ElementQuad1+ElementQuad0', 'C:ElementQuadRT0+ElementQuad0',
              'C:V:ElementQuad2+ElementQuad1'],
-    'tet': ['V:ElementTetP1', 'V:ElementTetP2', 'C:ElementTetP2+ElementTetP1', 'C:ElementTetP2+ElementTetP1+ElementTetP0',
+    'tet': ['V2:ElementTetP2', 'V1:ElementTetP2', 'V4:ElementTetP1', 'V2:ElementTetCCR', 'V:ElementTetP1', 'V:ElementTetP2', 'C:ElementTetP2+ElementTetP1', 'C:ElementTetP2+ElementTetP1+ElementTetP0',
             'C:ElementTetRT0+ElementTetP0', 'C:ElementTetN0+ElementTetP1', 'C:ElementTetMini+ElementTetP1',
             'C:ElementTetCCR+ElementTetP0+ElementTetN0', 'C:V:ElementTetP2+ElementTetP1'],
-    'hex': ['V:ElementHex1', 'C:ElementHex2+ElementHex1', 'C:ElementHexS2+ElementHex0+ElementHexRT1'],
-    'line': ['C:ElementLineP2+ElementLineP1+ElementLineP0', 'C:ElementLineHermite+ElementLineP1', 'V:ElementLineP2'],
+    'hex': ['V2:ElementHex2', 'V:ElementHex1', 'C:ElementHex2+ElementHex1', 'C:ElementHexS2+ElementHex0+ElementHexRT1'],
+    'line': ['C:ElementLineP2+ElementLineP1+ElementLineP0', 'C:ElementLineHermite+ElementLineP1', 'V:ElementLineP2', 'V3:ElementLineP2', 'V2:ElementLineMini'],
 }
 MESHES = ['tri-delaunay', 'tri-struct', 'tri2-curved', 'quad-jiggled', 'tet-delaunay', 'tet-struct', 'hex-jiggled', 'line-random']
 
@@ -80,6 +80,7 @@ def gen_case(rng):
         el = [e for e in O1.ELEMS[fam] if not e.startswith('C:')]
         d['eu'] = rng.choice(el)
         d['ev'] = rng.choice(el)
+        d['restricted'] = rng.random() < 0.4
     return d
 
 
@@ -162,6 +163,14 @@ def check_split(desc):
     out = []
     info = {'N': int(basis.N), 'Nbfun': int(basis.Nbfun), 'nelems': int(basis.nelems), 'ncomp': len(parts)}
     # the split indices partition the DOFs
+    from skfem.element import ElementVector as _EV, ElementComposite as _EC
+    from skfem.assembly import Dofs as _Dofs
+    comp_elems = ([elem.elem] * elem.dim if isinstance(elem, _EV) else list(elem.elems) if isinstance(elem, _EC) else [elem])
+    Nexp = sum(int(_Dofs(m, ce).N) for ce in comp_elems)
+    out.append(('N=sum-of-component-N', 0.0 if int(basis.N) == Nexp and len(parts) == len(comp_elems) else float('inf'),
+                {'N': int(basis.N), 'expected': Nexp, 'components': len(parts)}))
+    if basis.Nbfun != int(sum(elem._bfun_counts())):
+        out.append(('Nbfun=bfun-counts', float('inf'), {'Nbfun': int(basis.Nbfun), 'expected': int(sum(elem._bfun_counts()))}))
     ix = np.concatenate(basis.split_indices())
     out.append(('split-indices-partition', 0.0 if np.array_equal(np.sort(ix), np.arange(basis.N)) else float('inf'), None))
     for k, (xs, b) in enumerate(parts):
@@ -315,6 +324,22 @@ def check_compbasis(desc):
     e1, e2 = O1.make_elem(desc['eu']), O1.make_elem(desc['ev'])
     io = desc['intorder']
     b1, b2 = CellBasis(m, e1, intorder=io), CellBasis(m, e2, intorder=io)
+    pre = []
+    rng0 = np.random.default_rng(desc['seed'] + 5)
+    if m.nelements >= 2:
+        S = np.sort(rng0.permutation(m.nelements)[:int(rng0.integers(1, m.nelements))])
+        s1, s2 = CellBasis(m, e1, intorder=io, elements=S), CellBasis(m, e2, intorder=io, elements=S)
+        for a, b, lab in ((s1, b2, 'restricted*whole'), (b1, s2, 'whole*restricted')):
+            try:
+                a * b
+                pre.append(('compositebasis-element-count', float('inf'),
+                            {'combination': lab, 'nelems': [int(a.nelems), int(b.nelems)], 'observed': 'no error',
+                             'expected': 'ValueError: Each Basis must have the same number of elements.'}))
+            except ValueError as ex:
+                pre.append(('compositebasis-element-count', 0.0 if 'number of elements' in str(ex) else float('inf'),
+                            {'combination': lab, 'observed': str(ex)}))
+        if desc.get('restricted'):
+            b1, b2 = s1, s2                      # equal restrictions combine, and assemble to the component blocks
     cb = b1 * b2
     z = [b1.basis[0][0], b2.basis[0][0]]
     terms = _terms(desc, z, z)
@@ -325,7 +350,7 @@ def check_compbasis(desc):
     except Exception as e:
         if _sig(z[0]) != _sig(z[1]):
             # CompositeBasis.basis pads the other slots with zeros of the WRONG component
-            return [('compositebasis-mixed', float('inf'), {'exception': f'{type(e).__name__}: {e}'[:300],
+            return pre + [('compositebasis-mixed', float('inf'), {'exception': f'{type(e).__name__}: {e}'[:300],
                                                             'signatures': [str(_sig(z[0])), str(_sig(z[1]))]})], {'terms': terms}
         raise
     comps = [b1, b2]
@@ -342,7 +367,7 @@ def check_compbasis(desc):
     r = 0.0
     for (xs, b), w in zip(cb.split(x), whole):
         r = max(r, _fields_equal(w, b.interpolate(xs)))
-    out = [('compositebasis-blocks', _rel(A, K.toarray()), None), ('compositebasis-interp', r, None),
+    out = pre + [('compositebasis-blocks', _rel(A, K.toarray()), None), ('compositebasis-interp', r, None),
            ('bmat-blocks', 0.0 if list(K.blocks) == [b1.N] else float('inf'), {'got': list(map(int, K.blocks)), 'expected': [int(b1.N)]})]
     return out, {'terms': terms, 'N': [int(b1.N), int(b2.N)]}
 
@@ -354,6 +379,10 @@ CHECKS = {'local': check_local, 'split': check_split, 'block': check_block, 'par
 def _key(desc, name):
     if name == 'tolocal':
         return 'tolocal:local-matrix!=cell-block'
+    if name == 'compositebasis-element-count':
+        return 'compositebasis:accepts-different-element-counts'
+    if name in ('N=sum-of-component-N', 'Nbfun=bfun-counts'):
+        return f'dofs-count:{desc.get("elem", "?")}'
     if name == 'compositebasis-mixed':
         return 'compositebasis:zero-placeholder-of-wrong-component'
     if name == 'interp-split':
@@ -373,14 +402,35 @@ def _nontrivial(desc, info):
     return True
 
 
+def fixed_cases():
+    """run on every tier: vector elements whose component count differs from the spatial dimension (facet / edge /
+    interior DOFs), and CompositeBasis with restricted bases"""
+    out = []
+    k = 0
+    for mesh, elem in (('tri-struct', 'V3:ElementTriP2'), ('tri-delaunay', 'V1:ElementTriP2'), ('quad-jiggled', 'V4:ElementQuad2'),
+                       ('quad-jiggled', 'V3:ElementQuad2'), ('tet-struct', 'V2:ElementTetP2'), ('tet-delaunay', 'V1:ElementTetCCR'),
+                       ('hex-jiggled', 'V2:ElementHex2'), ('line-random', 'V3:ElementLineP2'), ('tri-struct', 'V3:ElementTriCCR')):
+        for check in ('split', 'block'):
+            k += 1
+            out.append({'check': check, 'mesh': mesh, 'mseed': 1000 + k, 'seed': 2000 + k, 'intorder': 3, 'tseed': 3000 + k,
+                        'nterms': 2, 'elem': elem, 'basis': 'cell'})
+    for mesh, eu, ev, restricted in (('tri-struct', 'ElementTriP2', 'ElementTriP1', True), ('tet-struct', 'ElementTetP1', 'ElementTetP2', False),
+                                     ('quad-jiggled', 'ElementQuad1', 'ElementQuad2', True)):
+        k += 1
+        out.append({'check': 'compbasis', 'mesh': mesh, 'mseed': 1000 + k, 'seed': 2000 + k, 'intorder': 3, 'tseed': 3000 + k,
+                    'nterms': 2, 'eu': eu, 'ev': ev, 'restricted': restricted})
+    return out
+
+
 def run(ctx):
     logging.getLogger('skfem').setLevel(logging.ERROR)
     warnings.simplefilter('ignore')
     rng = ctx.rng
+    fixed = fixed_cases()
     n = ctx.n(160, 1600)
     worst = 0.0
-    for c in range(n):
-        desc = gen_case(rng)
+    for c in range(n + len(fixed)):
+        desc = fixed[c] if c < len(fixed) else gen_case(rng)
         try:
             res, info = CHECKS[desc['check']](desc)
         except Exception as e:  # an exception of the implementation on a valid input is a failing input
@@ -404,15 +454,19 @@ def run(ctx):
             if not (err <= TOL):
                 ctx.fail(_key(desc, name), f'{name}: relative discrepancy {err:.3e} (tolerance {TOL:g})',
                          {'oracle_case': desc, 'info': info, 'check': name, 'error': float(err), 'detail': extra})
-    ctx.extra['oracle'] = {'cases': n, 'max_relative_discrepancy_of_passing_checks': worst, 'tolerance': TOL}
-    ctx.log(f'oracle: {n} real-basis cases, max relative discrepancy {worst:.2e} (tolerance {TOL:g})')
+    ctx.extra['oracle'] = {'cases': n + len(fixed), 'fixed_cases': len(fixed), 'max_relative_discrepancy_of_passing_checks': worst, 'tolerance': TOL}
+    ctx.log(f'oracle: {n + len(fixed)} real-basis cases, max relative discrepancy {worst:.2e} (tolerance {TOL:g})')
 
 
 def replay(ctx, inp):
     logging.getLogger('skfem').setLevel(logging.ERROR)
     warnings.simplefilter('ignore')
     desc = inp['oracle_case']
-    res, info = CHECKS[desc['check']](desc)
+    try:
+        res, info = CHECKS[desc['check']](desc)
+    except Exception as e:  # an exception of the implementation on a valid input is the failing input
+        ctx.fail(f"replay:real:{desc['check']}:exception", f'{type(e).__name__}: {e}', {'oracle_case': desc})
+        return
     for name, err, extra in res:
         ctx.log(f'replay {name}: discrepancy {err:.3e}')
         if not (err <= TOL):
